@@ -27,30 +27,34 @@ func headerProbe(ref uint16, total, seq byte) (hlen int, id byte, data []byte) {
 type c07Coding struct {
 	name  string
 	c     coding.DataCoding
-	wmodel, emodel string // Gallina: width function and encoder of the model instance
+	wmodel, emodel string // Gallina: width function and encoder of the length-only model instance
+	cs             string // Gallina: the coding (Model/Charset.v) for the payload-level instance compose_cs
 	gsm   bool
 	// fixedUnit > 0: every character of the repertoire used for "fixed-width" texts takes this many bits
 	stateful bool
 	pools    map[int][]rune // by octets of the one-character encoding (GSM: by septets)
 	specials []rune         // accepted characters by UTF-8 form: U+FFFD (= utf8.RuneError) first, then a 4-, 3-, 2-octet sequence
+	deep     bool                // the model looks characters up in tables of thousands of rows: long random texts are slow in coqc
+	aliases  []coding.DataCoding // message-waiting / message-class values whose encoder behaves like this coding's
 }
 
 func c07Codings() []*c07Coding {
 	l := []*c07Coding{
 		{name: "gsm7", c: coding.GSM7BitCoding, gsm: true},
-		{name: "ascii", c: coding.ASCIICoding, wmodel: "w_1byte", emodel: "(enc_len_stateless wd_ascii)"},
-		{name: "latin1", c: coding.Latin1Coding, wmodel: "w_1byte", emodel: "(enc_len_stateless wd_latin1)"},
-		{name: "cyrillic", c: coding.CyrillicCoding, wmodel: "w_1byte", emodel: "(enc_len_stateless wd_cyrillic)"},
-		{name: "hebrew", c: coding.HebrewCoding, wmodel: "w_1byte", emodel: "(enc_len_stateless wd_hebrew)"},
-		{name: "shiftjis", c: coding.ShiftJISCoding, wmodel: "w_multibyte", emodel: "(enc_len_stateless wd_shiftjis)"},
-		{name: "eucjp", c: coding.EUCJPCoding, wmodel: "(w_measured wd_eucjp)", emodel: "(enc_len_stateless wd_eucjp)"},
-		{name: "euckr", c: coding.EUCKRCoding, wmodel: "w_multibyte", emodel: "(enc_len_stateless wd_euckr)"},
-		{name: "ucs2", c: coding.UCS2Coding, wmodel: "w_utf16", emodel: "(enc_len_stateless wd_ucs2)"},
-		{name: "iso2022jp", c: coding.ISO2022JPCoding, wmodel: "w_multibyte", emodel: "(enc_len_2022 wd_iso2022jp JAscii)", stateful: true},
+		{name: "ascii", cs: "CAscii", c: coding.ASCIICoding, wmodel: "w_1byte", emodel: "(enc_len_stateless wd_ascii)"},
+		{name: "latin1", cs: "CLatin1", c: coding.Latin1Coding, wmodel: "w_1byte", emodel: "(enc_len_stateless wd_latin1)"},
+		{name: "cyrillic", cs: "CCyrillic", c: coding.CyrillicCoding, wmodel: "w_1byte", emodel: "(enc_len_stateless wd_cyrillic)"},
+		{name: "hebrew", cs: "CHebrew", c: coding.HebrewCoding, wmodel: "w_1byte", emodel: "(enc_len_stateless wd_hebrew)"},
+		{name: "shiftjis", deep: true, cs: "CSjis", c: coding.ShiftJISCoding, wmodel: "w_multibyte", emodel: "(enc_len_stateless wd_shiftjis)"},
+		{name: "eucjp", deep: true, cs: "CEucjp", c: coding.EUCJPCoding, wmodel: "(w_measured wd_eucjp)", emodel: "(enc_len_stateless wd_eucjp)"},
+		{name: "euckr", deep: true, cs: "CEuckr", c: coding.EUCKRCoding, wmodel: "w_multibyte", emodel: "(enc_len_stateless wd_euckr)"},
+		{name: "ucs2", cs: "CUcs2", c: coding.UCS2Coding, wmodel: "w_utf16", emodel: "(enc_len_stateless wd_ucs2)"},
+		{name: "iso2022jp", deep: true, cs: "CIso2022jp", c: coding.ISO2022JPCoding, wmodel: "w_multibyte", emodel: "(enc_len_2022 wd_iso2022jp JAscii)", stateful: true},
 	}
 	cands := [][2]rune{{0x20, 0x7E}, {0xA0, 0xFF}, {0x391, 0x3A9}, {0x410, 0x44F}, {0x5D0, 0x5EA}, {0x2010, 0x2030}, {0x3041, 0x3093},
 		{0x30A1, 0x30F6}, {0x4E00, 0x4FFF}, {0x5000, 0x5200}, {0x9000, 0x9100}, {0xAC00, 0xAD00}, {0xFF61, 0xFF9F}, {0x1F300, 0x1F340}, {0x20000, 0x20010}}
 	for _, cd := range l {
+		cd.aliases = aliasValues(cd.c)
 		cd.pools = map[int][]rune{}
 		for _, rg := range cands {
 			for r := rg[0]; r <= rg[1]; r++ {
@@ -212,23 +216,43 @@ func gsmJoin(text []rune, pieces [][]rune, rooms []int) bool {
 }
 
 type c07 struct {
-	r    *Run
-	seen map[string]bool
+	r      *Run
+	seen   map[string]bool
+	nalias int
+	ncase  int
 }
 
 // compose runs one (coding, text, reference) through ComposeMultipartShortMessage.
 func (c *c07) compose(cd *c07Coding, rs []rune, ref uint16, bucket string) {
+	c.composeDC(cd, cd.c, rs, ref, bucket)
+}
+
+// composeAlias: the same through one of the message-waiting / message-class data_coding values that carry this coding
+// (every clause of the property holds for "every data coding that has an encoder", not only the ten table constants)
+func (c *c07) composeAlias(cd *c07Coding, rs []rune, ref uint16, bucket string) {
+	if len(cd.aliases) == 0 {
+		return
+	}
+	dc := cd.aliases[c.nalias%len(cd.aliases)]
+	c.nalias += 7 // walks through all values of the groups (their sizes are coprime to 7)
+	c.composeDC(cd, dc, rs, ref, bucket+" (data_coding of a message-waiting / message-class group)")
+}
+
+func (c *c07) composeDC(cd *c07Coding, dc coding.DataCoding, rs []rune, ref uint16, bucket string) {
 	r := c.r
 	text := string(rs)
-	key := fmt.Sprintf("%s/%d/%s", cd.name, ref, text)
+	key := fmt.Sprintf("%s/%d/%d/%s", cd.name, byte(dc), ref, text)
 	if c.seen[key] {
 		return
 	}
 	c.seen[key] = true
 	in := fmt.Sprintf("compose coding=%s ref=%d text=%s", cd.name, ref, describeText(rs))
+	if dc != cd.c {
+		in = fmt.Sprintf("compose coding=%s data_coding=%d ref=%d text=%s", cd.name, byte(dc), ref, describeText(rs))
+	}
 	var parts []pdu.ShortMessage
 	var err error
-	panicked, msg := guard(func() { parts, err = pdu.ComposeMultipartShortMessage(text, cd.c, ref) })
+	panicked, msg := guard(func() { parts, err = pdu.ComposeMultipartShortMessage(text, dc, ref) })
 	r.Count(key, len(rs) > 0, cd.name+": "+bucket)
 	cls := 0
 	if panicked {
@@ -238,7 +262,7 @@ func (c *c07) compose(cd *c07Coding, rs []rune, ref uint16, bucket string) {
 		cls = 1
 	}
 	// what the encoder says about the whole text (fresh encoder): encodable at all?
-	whole, wcls := wdEncode(cd.c, text)
+	whole, wcls := wdEncode(dc, text)
 	if cls == 0 {
 		n := len(parts)
 		r.Hist[fmt.Sprintf("parts: %s", partsBucket(n))]++
@@ -249,6 +273,14 @@ func (c *c07) compose(cd *c07Coding, rs []rune, ref uint16, bucket string) {
 		joined := []rune{}
 		decodeOK := true
 		for i, p := range parts {
+			if p.DataCoding != dc {
+				// the receiver decodes by the data coding the part carries: it must denote the same coding (same encoder class)
+				pb, pok := encBaseOf(p.DataCoding)
+				if db, dok := encBaseOf(dc); !pok || !dok || pb != db {
+					r.Fail("label/part-carries-another-data-coding", "a part carries a data coding that does not denote the coding it was encoded with", in,
+						fmt.Sprintf("part %d/%d: data_coding %d", i+1, n, byte(p.DataCoding)), fmt.Sprintf("data_coding %d or one that denotes the same coding", byte(dc)))
+				}
+			}
 			sz := p.UDHeader.Len() + len(p.Message)
 			if sz > 140 {
 				r.Fail("size/"+cd.name+"-part-exceeds-140", "user-data header plus payload exceed 140 octets", in,
@@ -271,7 +303,7 @@ func (c *c07) compose(cd *c07Coding, rs []rune, ref uint16, bucket string) {
 			}
 			var dec []byte
 			var derr error
-			dp, _ := guard(func() { dec, derr = cd.c.Encoding().NewDecoder().Bytes(p.Message) })
+			dp, _ := guard(func() { dec, derr = dc.Encoding().NewDecoder().Bytes(p.Message) })
 			if dp || derr != nil {
 				decodeOK = false
 				r.Fail("lossless/"+cd.name+"-payload-does-not-decode", "a payload does not decode with the same coding", in,
@@ -341,21 +373,30 @@ func (c *c07) compose(cd *c07Coding, rs []rune, ref uint16, bucket string) {
 		}
 	}
 	// model case
-	var obs []string
+	var obs, obsLen []string
 	for _, p := range parts {
-		if cd.gsm {
-			obs = append(obs, fmt.Sprintf("(%s, %s)", coqUDH(p.UDHeader), coqHex(p.Message)))
-		} else {
-			obs = append(obs, fmt.Sprintf("(%s, %d%%nat)", coqUDH(p.UDHeader), len(p.Message)))
-		}
+		obs = append(obs, fmt.Sprintf("(%s, %s)", coqUDH(p.UDHeader), coqHex(p.Message)))
+		obsLen = append(obsLen, fmt.Sprintf("(%s, %d%%nat)", coqUDH(p.UDHeader), len(p.Message)))
 	}
 	if cls != 0 {
-		obs = nil
+		obs, obsLen = nil, nil
 	}
-	if cd.gsm {
+	switch {
+	case cd.gsm:
 		r.Case(in, fmt.Sprintf("parts_obs_ok beq_bytes (compose_gsm7 %d %s) %d %s", ref, coqText(rs), cls, coqList(obs)))
-	} else {
-		r.Case(in, fmt.Sprintf("parts_obs_ok Nat.eqb (compose_len %s %s %d %s) %d %s", cd.wmodel, cd.emodel, ref, coqText(rs), cls, coqList(obs)))
+	case dc != cd.c:
+		// a message-waiting / message-class value: the model resolves it through the regenerated dc_table
+		r.Case(in, fmt.Sprintf("parts_obs_ok beq_bytes (compose_dc %d %d %s) %d %s", byte(dc), ref, coqText(rs), cls, coqList(obs)))
+	case len(rs) > 5000:
+		// hundreds of parts of one repeated character: the lengths say it all (and keep the quick tier quick)
+		r.Case(in+" (lengths)", fmt.Sprintf("parts_obs_ok Nat.eqb (compose_len %s %s %d %s) %d %s", cd.wmodel, cd.emodel, ref, coqText(rs), cls, coqList(obsLen)))
+	default:
+		// payload level: header entries and the payload OCTETS of every part
+		r.Case(in, fmt.Sprintf("parts_obs_ok beq_bytes (compose_cs %s %d %s) %d %s", cd.cs, ref, coqText(rs), cls, coqList(obs)))
+		if c.ncase++; (c.ncase%4 == 0 && !(cd.deep && len(rs) > 150 && r.Quick)) || cd.stateful {
+			// the length-only instance the size theorems (C07_no_size_refusal) speak about
+			r.Case(in+" (lengths)", fmt.Sprintf("parts_obs_ok Nat.eqb (compose_len %s %s %d %s) %d %s", cd.wmodel, cd.emodel, ref, coqText(rs), cls, coqList(obsLen)))
+		}
 	}
 	if cls == 0 && len(parts) > 0 {
 		// the header accessors on the first and the last part
@@ -480,7 +521,10 @@ func corrC07(r *Run) {
 	r.Import("Model.Splitter")
 	r.Import("Model.Compose")
 	r.Import("Gen.Widths")
-	r.PerShard(40)
+	r.Import("Model.IntervalMap")
+	r.Import("Model.Charset")
+	r.Import("Model.ComposeText")
+	r.PerShard(120)
 	r.Rule = "ComposeMultipartShortMessage on generated texts per repertoire (GSM 7-bit with extension characters, four single-octet charsets, " +
 		"Shift-JIS, EUC-JP incl. 3-octet characters, ISO-2022-JP, EUC-KR, UCS-2 incl. supplementary planes): wide characters at every offset -3..+3 " +
 		"around the part boundary, U+FFFD and other characters with 2/3/4-octet UTF-8 forms at every offset -3..+3 around every part boundary, lengths 0 .. beyond 254 parts, references {0,1,254,255,256,65535}+random; Splitter.Split with small limits. " +
@@ -537,6 +581,63 @@ func corrC07(r *Run) {
 				}
 			}
 		}
+		// ---- the single-part shortcut with MIXED widths: narrow characters up to the limit and one wide character
+		//      (69 BMP + 1 supplementary-plane character = 142 octets of UCS-2; 159 default + 1 extension character = 161 septets)
+		for ri, ref := range []uint16{256, 255} {
+			if r.Quick && ri > 0 {
+				break
+			}
+			for d := -2; d <= 1; d++ {
+				if r.Quick && d == -2 {
+					continue
+				}
+				k := 140/unitA - ks[len(ks)-1]/unitA + d
+				if cd.gsm {
+					k = 160 - 2 + d
+				}
+				if k < 0 {
+					continue
+				}
+				for pi, pos := range []int{0, k, k / 2} {
+					if r.Quick && pi == 2 {
+						break
+					}
+					t := append(append(rept(a, pos), b), rept(a, k-pos)...)
+					c.compose(cd, t, ref, "mixed widths around the single-part limit")
+				}
+			}
+		}
+		// ---- the message-waiting / message-class data_coding values that carry this coding (GSM 7-bit: 0xD0-0xDF, 0xF0-0xF3,
+		//      0xF8-0xFB; UCS-2: 0xE0-0xEF, 0xF4-0xF7, 0xFC-0xFF): the single-part limit, full parts (maximality), a wide
+		//      character at the boundary, mixtures
+		if len(cd.aliases) > 0 {
+			for _, n := range []int{140, 141} {
+				k := n / unitA
+				if cd.gsm {
+					k = n * 8 / 7
+				}
+				c.composeAlias(cd, rept(a, k), refs[r.Rng.Intn(len(refs))], "around the single-part limit")
+				c.composeAlias(cd, rept(a, k+1), refs[r.Rng.Intn(len(refs))], "around the single-part limit")
+			}
+			for _, ref := range []uint16{255, 256, uint16(r.Rng.Intn(65536))} {
+				per := per8
+				if ref > 255 {
+					per = per16
+				}
+				c.composeAlias(cd, rept(a, 2*per), ref, "two full parts")
+				c.composeAlias(cd, rept(a, 2*per+1), ref, "two full parts and one character")
+				for _, off := range []int{-1, 0} {
+					t := append(rept(a, per+off), b)
+					t = append(t, rept(a, per+5)...)
+					c.composeAlias(cd, t, ref, "wide character at the part boundary")
+				}
+			}
+			c.composeAlias(cd, nil, 7, "empty text")
+			for i, na := 0, r.N(len(cd.aliases)/4+4, len(cd.aliases)+4); i < na; i++ { // every value of the groups at least once in the thorough tier
+				n := 1 + r.Rng.Intn(3*per16)
+				c.composeAlias(cd, rept(pick(narrow), n), uint16(r.Rng.Intn(65536)), "fixed-width text")
+			}
+		}
 		// ---- a wide character at every offset -3..+3 around the first and second part boundary
 		brefs := refs
 		if r.Quick { // the two sides of the 8/16-bit switch always, one of the others in turn
@@ -582,6 +683,9 @@ func corrC07(r *Run) {
 				}
 				for k := 1; k <= nbound; k++ {
 					for off := -3; off <= 3; off++ {
+						if r.Quick && x != 0xFFFD && (off < -1 || off > 1 || k > 2) {
+							continue // quick tier: every offset and boundary for U+FFFD, the cut itself for the others
+						}
 						t := append(rept(a, k*per+off), x)
 						t = append(t, rept(a, per/2+3)...)
 						c.compose(cd, t, ref, "UTF-8 multi-octet character at offset -3..+3 of every part boundary")
@@ -606,6 +710,9 @@ func corrC07(r *Run) {
 		nm := r.N(8, 60)
 		for i := 0; i < nm; i++ {
 			ln := 100 + r.Rng.Intn(500)
+			if cd.deep && r.Quick {
+				ln = 100 + r.Rng.Intn(200)
+			}
 			t := make([]rune, ln)
 			mode := r.Rng.Intn(4)
 			for j := range t {
@@ -632,6 +739,9 @@ func corrC07(r *Run) {
 				ref = refs[r.Rng.Intn(len(refs))]
 			}
 			c.compose(cd, t, ref, "random mixture")
+			if i%2 == 0 {
+				c.composeAlias(cd, t, ref, "random mixture")
+			}
 			c.split(cd, t[:20+r.Rng.Intn(60)], 4+r.Rng.Intn(12))
 		}
 		// one character outside the repertoire
@@ -659,6 +769,26 @@ func corrC07(r *Run) {
 			if !r.Quick {
 				c.compose(cd, rept(a, per*253+1), ref, "254 parts, last one short")
 				c.compose(cd, rept(a, per*300), ref, "300 parts: must be refused")
+			}
+		}
+	}
+	// ---- data_coding values WITHOUT an encoder or splitter (reserved values, 8-bit data, 0xC0-0xCF): nothing is claimed
+	//      about the result, but the call must come back (an error), not panic
+	for _, b := range []int{2, 4, 9, 0x0F, 0xBF, 0xC0, 0xC8, 0xCF, 0x80} {
+		dc := coding.DataCoding(b)
+		if dc.Encoding() != nil && dc.Splitter() != nil {
+			continue
+		}
+		for _, t := range []string{"", "a", strings.Repeat("a", 200)} {
+			in := fmt.Sprintf("compose data_coding=%d (no encoder) ref=1 text=%s", b, describeText([]rune(t)))
+			var parts []pdu.ShortMessage
+			var err error
+			panicked, msg := guard(func() { parts, err = pdu.ComposeMultipartShortMessage(t, dc, 1) })
+			r.Count(in, true, "data_coding without an encoder")
+			if panicked {
+				r.Fail("compose/panic", "ComposeMultipartShortMessage panicked for a data coding without an encoder", in, msg, "an error")
+			} else if err == nil && len(parts) > 0 && t != "" {
+				r.Fail("compose/no-encoder-but-parts", "parts were returned for a data coding that has no encoder", in, fmt.Sprintf("%d parts", len(parts)), "an error")
 			}
 		}
 	}
